@@ -34,6 +34,22 @@ CHECKS = {
         "64-bit path only (MurmurHash64B/ARM not modelled).",
    technique="Lean 4 proof (hash_eq_reference, reads_in_bounds) + correspondence run",
    design="6/C14"),
+ "C16": dict(
+   text="Kernel-checked Lean theorems over three labelled transition systems at semaphore granularity, for every interleaving: "
+        "PCQueue (any capacity >= 1, any number of producers/consumers and items): a slot is never written while live or being "
+        "read nor read while empty or being written, global FIFO, per-producer order, exactly-once at completion, no deadlock when "
+        "quotas match; UnboundedSingleQueue (any page size): the consumer never follows an unlinked next pointer, never reads an "
+        "unwritten entry, the producer never touches a freed page, FIFO, no deadlock; BlockQueue/ThreadedBufferedStream (any block "
+        "count >= 2 - the source's kBlocks is regenerated and checked - any block size, any write-size sequence): caller and writer "
+        "thread never hold the same block, the file is always a prefix of and finally equal to the concatenation of all writes, the "
+        "destructor always terminates (no deadlock + decreasing measure); with one block it deadlocks (proved witness). Tied to the "
+        "real templates by a controlled scheduler driving util::Semaphore through the PREPROCESS_VERIF hooks: every executed "
+        "interleaving (DFS over small scenarios, seeded random over large ones) must be accepted by the LTS and end in its final "
+        "state with FIFO values / exact bytes.",
+   note="Trusted: Lean kernel + standard axioms; sequential consistency between semaphore operations (weak memory, sem_t, std::mutex "
+        "not modelled); real system is related to the LTS by trace acceptance of executed interleavings only.",
+   technique="Lean 4 proof (invariants over Reachable for three LTSs) + trace validation under a controlled scheduler",
+   design="6/C16"),
  "C17": dict(
    text="Kernel-checked Lean theorems over a transcription of WARCReader::Read (ReadMore, header lines, strtoll, overhang, body loop) "
         "on a chunked source: every fragmentation gives the same records and verdict; the returned records tile the input byte for "
